@@ -484,7 +484,7 @@ pub fn run_property(prop: &Prop, tier: Tier, seed: u64, root: PathBuf, only_stre
         let done_ref = &done;
         let wd = scope.spawn(move || -> Option<i32> {
             while !done_ref.load(Ordering::Relaxed) {
-                std::thread::sleep(Duration::from_millis(500));
+                std::thread::sleep(Duration::from_millis(50));
                 if let Some(v) = sh_ref.stalled(Duration::from_secs(20)) {
                     return Some(handle_stall(sh_ref, &v));
                 }
